@@ -10,7 +10,7 @@
    Where a statement needs the digest to be collision-free this is an explicit
    premise of that clause. *)
 From Coq Require Import Sorting.Permutation.
-From Oras Require Import Base.Prelude Base.Regex Base.StrCheck Generated.GC19 Model.Pack Proofs.Pack Proofs.PackTime Proofs.PackJson.
+From Oras Require Import Base.Prelude Base.Regex Base.StrCheck Generated.GC19 Model.Pack Proofs.Pack Proofs.PackTime Proofs.PackJson Proofs.PackTie.
 
 (* The media-type check accepts exactly RFC 6838 section 4.2:
    restricted-name "/" restricted-name, each 1..127 characters. *)
@@ -18,6 +18,26 @@ Theorem C19_media_type_grammar :
   forall s, valid_media_type s = true <-> RFC6838 s.
 Proof. exact media_type_grammar. Qed.
 Print Assumptions C19_media_type_grammar.
+
+(* The order of validations, storage operations and the created step in every function of pack.go,
+   re-read from the source on every run, is the order the model executes. *)
+Theorem C19_call_order_as_in_source :
+  calls_PackManifest = [b "packManifestV1_0"; b "packManifestV1_1"] /\
+  calls_Pack = [b "packManifestV1_1_RC2"; b "packArtifact"] /\
+  calls_packArtifact = [b "ensureAnnotationCreated"; b "pushManifest"] /\
+  calls_packManifestV1_0 =
+    [b "validateMediaType"; b "validateMediaType"; b "pushCustomEmptyConfig"; b "ensureAnnotationCreated"; b "pushManifest"] /\
+  calls_packManifestV1_1_RC2 = [b "pushCustomEmptyConfig"; b "ensureAnnotationCreated"; b "pushManifest"] /\
+  calls_packManifestV1_1 =
+    [b "validateMediaType"; b "validateMediaType"; b "pushIfNotExist"; b "ensureAnnotationCreated"; b "pushIfNotExist"; b "pushManifest"] /\
+  calls_pushIfNotExist = [b "ros.Exists"; b "pusher.Push"] /\
+  calls_pushManifest = [b "json.Marshal"; b "content.NewDescriptorFromBytes"; b "pusher.Push"] /\
+  calls_pushCustomEmptyConfig = [b "content.NewDescriptorFromBytes"; b "pushIfNotExist"] /\
+  calls_ensureAnnotationCreated = [b "validateRFC3339"; b "maps.Copy"; b "time.Now"] /\
+  calls_validateRFC3339 = [b "time.Parse"] /\
+  calls_validateMediaType = [b "mediaTypeRegexp.MatchString"].
+Proof. exact call_order_as_modelled. Qed.
+Print Assumptions C19_call_order_as_in_source.
 
 (* Every call of PackManifest / Pack ends in exactly one of five ways (rejected before any
    storage operation / malformed created / storage fault while handling "{}" / storage
